@@ -322,7 +322,7 @@ pub fn id_from_var(
                     },
                 )
             } else {
-                panic!("cannot have empty identifier")
+                return Err(vec![TypeErr::new(var.pos, "Cannot have empty identifier")]);
             };
 
             constr.add(
